@@ -1,6 +1,6 @@
 (* C09 - A truncated result stream decodes to a clean prefix. *)
 From Coq Require Import ZArith List Bool Arith.
-From V Require Import Model.ResultCodec Proofs.FramingProofs.
+From V Require Import Model.ResultCodec Proofs.FramingProofs Model.Json Proofs.JsonProofs Base.Base64.
 Import ListNotations.
 Open Scope Z_scope.
 
@@ -27,6 +27,16 @@ Theorem every_cut_has_that_shape : forall ls, Forall (fun l => ~ In 10 l) ls -> 
               (j <= length ls)%nat /\ (length (enc_lines (firstn j ls)) <= k \/ p = [])%nat.
 Proof. exact prefix_shape. Qed.
 Print Assumptions every_cut_has_that_shape.
+
+(* the JSON encoder writes exactly one line per result: its text contains no raw line break, so the
+   only byte 10 is the terminator and lines_cut_prefix applies to every JSON result stream *)
+Theorem json_no_raw_newline : forall r, jres_dom r ->
+  json_encode r = json_line r ++ [10] /\ ~ In 10 (json_line r).
+Proof.
+  intros r D. split; [apply json_encode_line, (jd_body r D)|].
+  unfold json_line. apply no10_cons; [discriminate|]. apply members_no10; [exact D | apply no10_cons; [discriminate | intros []]].
+Qed.
+Print Assumptions json_no_raw_newline.
 
 Example frames_cut_nontrivial :
   read_frames 5 (concat (map frame [[1; 2; 3]; [4]]) ++ firstn 2 (frame [9; 9; 9])) = ([[1; 2; 3]; [4]], true).
